@@ -45,6 +45,101 @@ REVIEWED_HANDLERS = {
 }
 
 
+# calls that only compute: a `try` that protects nothing else cannot leave anything half-done behind
+_PURE_NAMES = {"int", "float", "str", "bool", "len", "next", "iter", "isinstance", "issubclass", "getattr", "hasattr", "repr",
+               "type", "tuple", "list", "dict", "set", "frozenset", "min", "max", "abs", "round", "sorted", "enumerate",
+               "zip", "range", "any", "all", "bytes"}
+_PURE_ATTRS = {"strptime", "fromisoformat", "lower", "upper", "strip", "split", "startswith", "endswith", "get", "index",
+               "find", "item", "format", "dtype", "iinfo", "finfo", "issubdtype", "encode", "decode", "isoformat"}
+
+
+def _effect_free(chk, g, depth=2, _seen=None) -> bool:
+    """Does the package function g (and what it calls, to `depth`) only compute: no stores, no deletions, no yields?"""
+    _seen = _seen or set()
+    if g in _seen:
+        return True
+    _seen.add(g)
+    if g.is_generator():
+        return False
+    su = chk.terms.summary(g)
+    for e in su.effects:
+        if e.kind in ("store_attr", "store_sub", "del"):
+            return False
+    if depth <= 0:
+        return not any(e.kind == "call" for e in su.effects)
+    for n in walk_local(g.node):
+        if isinstance(n, ast.Call) and not _pure_call(chk, g, n, depth - 1, _seen):
+            return False
+    return True
+
+
+def _enum_like(chk, f, expr) -> bool:
+    """Is `expr` (a name called like a constructor) an Enum class: the class itself, `cls` inside one, or a parameter
+    annotated type[<Enum class>]?"""
+    ix = chk.ix
+
+    def is_enum_cls(c):
+        return any(isinstance(b, str) and b.split(".")[-1] in ("Enum", "IntEnum", "Flag", "IntFlag") for k in c.mro()
+                   for b in k.bases)
+    if not isinstance(expr, ast.Name):
+        return False
+    owner = f
+    while owner is not None:
+        if owner.cls is not None and expr.id in ("cls", "self") and is_enum_cls(owner.cls):
+            return True
+        a = owner.node.args if hasattr(owner.node, "args") else None
+        if a is not None:
+            for p in a.posonlyargs + a.args + a.kwonlyargs:
+                if p.arg == expr.id and p.annotation is not None:
+                    src = ast.unparse(p.annotation)
+                    if src.lower().startswith("type[") and src[5:-1].split(".")[-1] in ("Enum", "IntEnum"):
+                        return True
+                    inner = src[5:-1] if src.lower().startswith("type[") else None
+                    if inner:
+                        ent = ix.resolve_name(inner.split(".")[-1], owner.module)
+                        if ent and ent[0] == "class" and is_enum_cls(ent[1]):
+                            return True
+        owner = owner.parent
+    ent = ix.resolve_name(expr.id, f.module)
+    return bool(ent and ent[0] == "class" and is_enum_cls(ent[1]))
+
+
+def _pure_call(chk, f, n: ast.Call, depth=2, _seen=None) -> bool:
+    ix = chk.ix
+    try:
+        targets = [t for t in ix.resolve_call(n, Scope(ix, f))[0] if hasattr(t, "node")]
+    except Exception:  # noqa: BLE001
+        targets = []
+    if targets:
+        return all(_effect_free(chk, t, depth, _seen) for t in targets)
+    fn = n.func
+    if isinstance(fn, ast.Name):
+        return fn.id in _PURE_NAMES or _enum_like(chk, f, fn)
+    if isinstance(fn, ast.Attribute):
+        return fn.attr in _PURE_ATTRS
+    return False
+
+
+def _pure_probe(chk, f, t: ast.Try) -> bool:
+    """The protected statements only compute (bind locals, return, call effect-free things): whatever the handler
+    does with the exception, no half-made state and no output can have been produced before it."""
+    for st in t.body:
+        if isinstance(st, ast.Assign):
+            if not all(isinstance(x, ast.Name) for x in st.targets):
+                return False
+        elif isinstance(st, ast.AnnAssign):
+            if not isinstance(st.target, ast.Name):
+                return False
+        elif not isinstance(st, (ast.Expr, ast.Return, ast.Pass)):
+            return False
+        for n in ast.walk(st):
+            if isinstance(n, (ast.Yield, ast.YieldFrom, ast.Await, ast.NamedExpr)):
+                return False
+            if isinstance(n, ast.Call) and not _pure_call(chk, f, n):
+                return False
+    return True
+
+
 def _handler_owner(f):
     g = f
     while g.cls is None and g.parent is not None:
@@ -226,6 +321,10 @@ def r12_4_handlers(chk):
                 where = f"{f.module.relpath}:{h.lineno}"
                 if always:
                     chk.ok("R12.4", f"handler-raises:{f.short}:{types}", "", where, nontrivial=False)
+                    continue
+                if len(t.body) <= 2 and _pure_probe(chk, f, t):
+                    chk.ok("R12.4", f"handler-of-a-pure-probe:{f.short}:{types}",
+                           "the protected statements only compute a value", where, nontrivial=False)
                     continue
                 ok = True
                 for kt in key_types:
